@@ -563,14 +563,14 @@ pub fn c19(ctx: &CheckCtx) -> i32 {
     );
     report.assume("unsupported constructs (enum, union, input, extend) and list depth > 30 are not generated");
     report.assume("the main search excludes the mutation kinds whose only known outcome is a listed panic; a second search includes them and tolerates exactly those signatures");
-    let cases = ctx.cases(240_000, 3_000_000);
+    let cases = ctx.cases(800_000, 8_000_000);
     let res = search(ctx, "c19", cases, 32, 500, |b, s, counting| c19_case(b, s, counting, false));
     report.absorb(res, &|b| {
         let mut c = Choices::new(b);
         let m = decode_mutated(&mut c, false);
         json!({"schema": m.sdl, "mutations": m.applied.iter().map(|a| a.label).collect::<Vec<_>>()})
     });
-    let cases = ctx.cases(48_000, 600_000);
+    let cases = ctx.cases(100_000, 1_000_000);
     let res = search(ctx, "c19-listed", cases, 32, 500, |b, s, counting| {
         let mut scratch = Stats::default();
         let v = c19_case(b, &mut scratch, counting, true);
